@@ -171,6 +171,12 @@ Proof.
   - (* CCons *) intros cid cv b IHb r IHr fs H. simpl in *. apply app_nil_inv in H as [H1 H2]. rewrite IHb, IHr; auto.
 Qed.
 
+Lemma find_label_exists : forall l fs,
+  (match find_label l fs with Some _ => true | None => false end) = existsb (fun f => has_label l (seen f)) fs.
+Proof.
+  induction fs as [|f r IH]; simpl; [reflexivity|]. destruct (has_label l (seen f)); [reflexivity | exact IH].
+Qed.
+
 Lemma labels_sound :
   (forall s, forall fs id, alab_stmt fs id s = [] -> rlab_stmt fs s = true) /\
   (forall b, forall fs sn isd, alab_block fs sn isd b = [] -> rlab_block fs sn isd b = true) /\
@@ -180,7 +186,7 @@ Proof.
   - (* If *) intros t IHt e IHe fs id H. simpl in *. apply app_nil_inv in H as [H1 H2]. rewrite IHt, IHe; auto.
   - (* Switch *) intros cs IHc els d IHd fs id H. simpl in *. apply app_nil_inv in H as [H1 H2]. rewrite IHc, IHd; auto.
   - (* Label *) intros l fs id H. simpl in *. unfold alabel in H. unfold rlabel.
-    destruct (existsb _ fs); [discriminate | reflexivity].
+    rewrite <- (find_label_exists l fs). destruct (find_label l fs); [discriminate | reflexivity].
   - (* Goto *) intros l fs id H. simpl in *. eapply goto_sound; eauto.
   - (* BCons *) intros id s IHs r IHr fs sn isd H. simpl in *. apply app_nil_inv in H as [H1 H2].
     rewrite (IHs _ id H1). simpl. apply IHr; assumption.
@@ -599,7 +605,6 @@ Proof.
 Qed.
 
 (* ---- full strength: FALSE for the unchanged analyzer *)
-Definition analyzer_sound_full : Prop := forall p, analyzer_ok p = true -> rule_ok_full p = true.
 Definition labels_sound_full : Prop := forall p, off_labels p = [] -> rule_labels_full p = true.
 
 (* ::l1::  defer goto l1 end : the goto leaves the defer block - rejected since 330205b (regression witness) *)
